@@ -117,6 +117,9 @@ def upper(s):
 
 def names(r):
     """Return the available names as a set in the Record otherwise ['UnknownRecord']."""
+    if isinstance(r, WrappedRecord):
+        # the compiled selector hands its record over wrapped: look at the record itself
+        r = r.record
     if isinstance(r, GroupedRecord):
         return set(sub_record._desc.name for sub_record in r.records)
     if isinstance(r, (Record, WrappedRecord)):
